@@ -565,6 +565,10 @@ void XSAXMLScanner::scanReset(const InputSource& src)
     fSchemaValidator->setExitOnFirstFatal(fExitOnFirstFatal);
     fSchemaValidator->setGrammarResolver(fGrammarResolver);
 
+    //  A progressive parse that was abandoned without parseReset() leaves its
+    //  readers behind; flush them so that this parse starts from a clean slate.
+    fReaderMgr.reset();
+
     //  Handle the creation of the XML reader object for this input source.
     //  This will provide us with transcoding and basic lexing services.
     XMLReader* newReader = fReaderMgr.createReader
